@@ -920,6 +920,15 @@ func (m *Monitors) onEDS(inv *simapi.Invocation, out kit.Outcome) {
 		} else if st := kit.GetEDS(m.w.S, v.EDS.Namespace, v.EDS.Name); st != nil && out.Err == nil {
 			activeAfter = st.Status.ActiveReplicaSet
 		}
+		if statusWrite == nil && out.Err != nil && upToDate != nil && activeBefore != nil && upToDate.Name != activeBefore.Name {
+			// the reconcile ended in an error before it wrote its status, so its decision about the
+			// active replica set is not observable; if the promotion rule allowed the switch, the
+			// collection of the replica set it was replacing is accepted
+			if allowed, either, _ := promotionAllowed(v.EDS, upToDate, now); allowed || either {
+				activeAfter = upToDate.Name
+				m.w.Ctx.Count("C13.active-after-inferred-from-promotion-rule")
+			}
+		}
 		for _, name := range rsDeletes {
 			if name == activeAfter || (upToDate != nil && name == upToDate.Name) {
 				m.viol("C13", "C13.never-delete-in-use", map[string]string{"which": map[bool]string{true: "active", false: "up-to-date"}[name == activeAfter]}, inv, map[string]any{"rs": name})
